@@ -4,7 +4,8 @@ export GOFLAGS=-mod=mod GOPROXY=off GOSUMDB=off GOTOOLCHAIN=local GOCACHE=/verif
 prop=$1; name=$2; wt=/tmp/val-$name
 cd /verif
 git -C /repo worktree remove --force $wt 2>/dev/null
-git -C /repo worktree add -q --detach $wt HEAD && git -C $wt apply /verif/seeded/$name/patch.diff || { echo "cannot apply"; exit 2; }
+base=HEAD; [ -f /verif/seeded/$name/BASE ] && base=$(cat /verif/seeded/$name/BASE)  # seeds whose patch no longer applies to HEAD record the newest commit it applies to
+git -C /repo worktree add -q --detach $wt $base && git -C $wt apply /verif/seeded/$name/patch.diff || { echo "cannot apply"; exit 2; }
 REPO=$wt VERIF_HANG_S=15 timeout 900 ./run.sh check $prop ${3:-quick} > /tmp/val-$name.check.log 2>&1
 c=$?
 git -C /repo worktree remove --force $wt
